@@ -221,6 +221,18 @@ impl ShardAssignment {
         Ok(node.id.clone())
     }
 
+    /// Verification hook: the distinct node ids currently on the consistent-hash ring (sorted)
+    /// and the number of virtual-node entries. Read-only; lets an external harness include the
+    /// otherwise private ring in its state fingerprint.
+    #[cfg(feature = "verif-hooks")]
+    pub async fn verif_ring_nodes(&self) -> (Vec<String>, usize) {
+        let ring = self.hash_ring.read().await;
+        let mut ids: Vec<String> = ring.ring.values().cloned().collect();
+        ids.sort();
+        ids.dedup();
+        (ids, ring.ring.len())
+    }
+
     /// Update a node's shard list in the registry
     async fn update_node_shards(&self, node_id: &str) {
         let assignments = self.assignments.read().await;
